@@ -1,4 +1,4 @@
-from datetime import date, time
+from datetime import date
 
 import pandas as pd
 
@@ -14,9 +14,8 @@ from visions.types.date_time import DateTime
 @Date.register_relationship(DateTime, pd.Series)
 @series_handle_nulls
 def datetime_is_date(series: pd.Series, state: dict) -> bool:
-    dtseries = series.dt.time
-    value = time(0, 0)
-    return all(v == value for v in dtseries)
+    # compare at the resolution of the data: `.dt.time` has microsecond resolution and hides nanoseconds
+    return bool((series.dt.normalize() == series).all())
 
 
 @Date.register_transformer(DateTime, pd.Series)
